@@ -252,7 +252,7 @@ def truth_under(test, flagvals) -> Optional[bool]:
     """three-valued truth of a test expression given assumed values of names / dotted names"""
     if isinstance(test, ast.Name) and test.id in flagvals:
         return bool(flagvals[test.id])
-    if isinstance(test, ast.Attribute):
+    if isinstance(test, (ast.Attribute, ast.Subscript, ast.Call)):
         d = _u(test)
         if d in flagvals:
             return bool(flagvals[d])
